@@ -173,6 +173,7 @@ func readAll(st keyvalue.Store) (vals [3]int, ok bool) {
 }
 
 func runC18(r *Rng, n int, replay string) {
+	hangs := 0
 	for id := 0; id < n; id++ {
 		which := []string{"MemTxn", "SerialTxn"}[id%2]
 		var st keyvalue.Store
@@ -215,7 +216,9 @@ func runC18(r *Rng, n int, replay string) {
 		var obs []obsT
 		var issued []int // ids returned by the calls, in call order
 		var expect []tRes
-		func() {
+		scriptDone := make(chan struct{})
+		go func() {
+			defer close(scriptDone)
 			defer func() {
 				if e := recover(); e != nil {
 					c.fail(fmt.Sprintf("[%s] %s: panicked: %v", which, strings.Join(text, "; "), e), which+":panic")
@@ -356,6 +359,19 @@ func runC18(r *Rng, n int, replay string) {
 				}
 			}
 		}()
+		select {
+		case <-scriptDone:
+		case <-time.After(5 * time.Second):
+			// a call on the transaction never returned (a mutex left locked by an earlier call, say): the goroutine is abandoned
+			c.fail(fmt.Sprintf("[%s] %s: a call did not return within 5 s (the transaction blocks its own later calls)", which, strings.Join(text, "; ")), which+":hang")
+			c.Text = text
+			emit(c)
+			hangs++
+			if hangs >= 3 {
+				return // every such script costs 5 s: three failing inputs are enough
+			}
+			continue
+		}
 		vals, ok := readAll(st)
 		if !ok {
 			c.fail(fmt.Sprintf("[%s] %s: the store is not usable afterwards (a fresh transaction does not complete)", which, strings.Join(text, "; ")), which+":not-released")
